@@ -25,7 +25,7 @@ META = {
 
 META['explanation'] += ' ' + 'R9 covers None items and positions a list refuses (TypeError, nothing booked). R11: enum coded vectors book the width they write (shared with C10.R3).'
 
-META['explanation'] += ' ' + 'R5 follows the helper methods compose calls. R7 also decides get_item_size per kind of item it distinguishes, against the composer layout of that kind. R12: state a vector class keeps next to its item list is rewritten by every method that changes the list.'
+META['explanation'] += ' ' + 'R5 follows the helper methods compose calls. R7 also decides get_item_size per kind of item it distinguishes, against the composer layout of that kind. R12: state a vector class keeps next to its item list is rewritten by every method that changes the list. R13: no vector class redefines a method of the sequence interface.'
 
 MUTATING_CALLS = {'append', 'insert', 'extend', 'pop', 'remove', 'clear', 'sort', 'reverse', '__setitem__', '__delitem__'}
 SEQ_METHODS = {'__delitem__', '__setitem__', 'insert', 'append', 'extend', 'pop', 'remove', 'clear', 'reverse',
@@ -202,6 +202,7 @@ def check(ctx, report):
         report.add('C12.R6', ia.construct + '@atomic', '__iadd__ does not go through the atomic extend')
     item_size_agreement(ctx, report, ab)
     derived_state(ctx, report)
+    sequence_interface_inherited(ctx, report)
     # enum coded vectors book the width of the fallback class per item and write the width of the item class: the two are equal
     # (shared with C10.R3)
     report.rule('C12.R11', 'enum coded vectors: the width booked per item (fallback class) is the width written per item (code of the item class)')
@@ -393,6 +394,34 @@ def size_form_by_evaluation(ctx, f):
     if t[2] == 4 and t[0] in (7, 'err') and t[1] in (13, 'err'):
         return 'text-item'
     return 'unknown:%r' % (t,)
+
+
+SEQUENCE_INTERFACE = ('__len__', '__getitem__', '__setitem__', '__delitem__', 'insert', 'append', 'extend', 'clear', 'reverse', 'pop', 'remove',
+                      '__iadd__', 'index', 'count', '__contains__', '__iter__', '__reversed__')
+
+
+def sequence_interface_inherited(ctx, report, RULE='C12.R13'):
+    """"holds exactly the items a plain list would hold": the sequence interface of every vector is the one of ArrayBase (its
+    own nine methods plus the mixins MutableSequence derives from them - ``remove`` is ``del self[self.index(x)]``, ``in`` is a
+    scan with ``==``).  A subclass that redefines one of them - a look-up that compares names instead of items, a ``pop`` with
+    another default - answers differently from the list, and the mixins built on the redefined method follow it.  No subclass
+    defines a name of the interface (method or class level binding)."""
+    model = ctx.model
+    report.rule(RULE, 'no vector class redefines a method of the sequence interface: look-ups and edits are those of ArrayBase / MutableSequence')
+    ab = model.cls('ArrayBase')
+    n = 0
+    for c in model.all_subclasses(ab):
+        n += 1
+        for name in SEQUENCE_INTERFACE:
+            if name in c.methods or name in c.class_vars:
+                f = c.methods.get(name)
+                report.add(RULE, '%s@redefines[%s]' % (c.construct, name),
+                           '%s.%s replaces the sequence method of ArrayBase / MutableSequence: what the vector answers (and what the mixins built on '
+                           'it do - remove, in, +=) is no longer what a plain list of its items answers' % (c.name, name))
+                if f is not None:
+                    report.touch(f)
+    report.count(RULE, n)
+    report.floor(RULE, 40, 'vector classes')
 
 
 def derived_state(ctx, report, RULE='C12.R12'):
